@@ -60,6 +60,9 @@ func (h *storeHandle) txn(ctx context.Context) *simTxn {
 
 func (h *storeHandle) NewTransaction(ctx context.Context, update bool) (database.Transaction, context.Context, error) {
 	s := h.s
+	if c := clientOf(ctx); c != "" && s.w.or != nil {
+		s.w.or.beforeFirstEffect(s.w, c)
+	}
 	if s.countOp("newtx", "") {
 		return nil, ctx, cerrors.Errorf("sim-fault db new transaction")
 	}
